@@ -14,6 +14,8 @@
   descriptions of the model `SH.Model.Access` (which `bin/check C30` ties to /repo by differential correspondence).
 
     accept_iff, accept_window, tampered_rejected, parse_ok_only_if      acceptance
+    parseKeys_sound, parseKeys_complete, accept_signed_by_named_key,
+    wrong_key_rejected                                                   key table: kid ↦ its own key
     grant_traced, grants_only_app_bits, grants_nothing, admin_traced    only the application's bits are granted
     view_rule, view_only_through_bit, remote_config_view                 view
     canChange_iff, change_needs_both, edit_needs_both,
@@ -22,9 +24,12 @@
     c30_end_to_end                                                       all of it from the token to the decisions
 
   PARTIAL with respect to the real system (not with respect to the model): Ed25519 and golang-jwt's base64 / JSON
-  decoding are not modelled. `Token.sigOk` (under which configured keys the signature verifies) and the decoded
-  header / claims are inputs; "signed by a configured key whose id it names" is therefore proved in the form
-  "the key id it names is configured and the signature verifies under that key".
+  decoding are not modelled. `Token.sigValid` (the public keys — as bytes — under which the signature verifies, i.e.
+  the relation valid : Key → Token → Bool as data) and the decoded header / claims are inputs; sha256 (the key
+  fingerprint) is the parameter `fp`. The key table kid ↦ key bytes IS modelled (`parseKeys` = ParseVkuthKeys,
+  `tableGet` = the Keyfunc's lookup), so "signed by a configured key whose id it names" is proved in the form
+  "the kid is the fingerprint of one of the listed keys and the signature verifies under THAT key's bytes"
+  (accept_iff, parseKeys_sound / parseKeys_complete, accept_signed_by_named_key, wrong_key_rejected).
   Full statement that is NOT proved here (would need a model of Ed25519 + JSON):
     -- theorem accept_only_signed : accepts tokenBytes → ∃ k ∈ configured, kid tokenBytes = id k ∧
     --     Ed25519.verify k.pub (signingInput tokenBytes) (signature tokenBytes)
@@ -56,7 +61,7 @@ theorem gen_err_bits : C30.errMalformed = 1 ∧ C30.errUnverifiable = 2 ∧ C30.
 /-- the property's acceptance condition -/
 def Valid (cfg : Cfg) (now : Nat) (t : Token) : Prop :=
   t.alg = .str C30.algEdDSA ∧ t.kind = .str C30.kindToken ∧
-  (∃ k, t.kid = .str k ∧ k ∈ cfg.keys ∧ k ∈ t.sigOk) ∧
+  (∃ kid key, t.kid = .str kid ∧ tableGet cfg.keys kid = some key ∧ key ∈ t.sigValid) ∧
   t.iss = C30.issuer ∧ t.user ≠ [] ∧
   (∃ e, t.exp = some e ∧ now < truncSec e + C30.timeWindowMs) ∧
   (∃ i, t.iat = some i ∧ truncSec i ≤ now + C30.timeWindowMs) ∧
@@ -77,19 +82,9 @@ theorem algCheck_none (a : HV) : algCheck a = none ↔ a = .str C30.algEdDSA := 
 theorem kindOk_iff (a : HV) : kindOk a = true ↔ a = .str C30.kindToken := by
   cases a <;> simp [kindOk]
 
-theorem kidKey_some (cfg : Cfg) (a : HV) (k : Str) : kidKey cfg a = some k ↔ a = .str k ∧ k ∈ cfg.keys := by
-  cases a with
-  | absent => simp [kidKey]
-  | other => simp [kidKey]
-  | str s =>
-    simp only [kidKey, List.contains_iff_mem]
-    constructor
-    · intro h
-      split at h
-      · next hm => simp at h; subst h; exact ⟨rfl, hm⟩
-      · simp at h
-    · intro ⟨e, hm⟩
-      simp at e; subst e; simp [hm]
+theorem kidKey_some (cfg : Cfg) (a : HV) (key : Key) :
+    kidKey cfg a = some key ↔ ∃ kid, a = .str kid ∧ tableGet cfg.keys kid = some key := by
+  cases a <;> simp [kidKey]
 
 theorem claimsMask_zero (now exp : Nat) (t : Token) :
     claimsMask now exp t = 0 ↔ expOk now exp = true ∧ iatOk now t.iat = true ∧ nbfOk now t.nbf = true ∧ issOk t = true ∧ userOk t = true := by
@@ -131,18 +126,18 @@ theorem nbfOk_iff (now : Nat) (o : Option Nat) : nbfOk now o = true ↔ ∀ n, o
     have : nbfOk now (some v) = true ↔ truncSec v ≤ now := decide_eq_true_iff
     simp [this]
 
-theorem sigVerdict_accept (now : Nat) (t : Token) (k : Str) :
-    sigVerdict now t k = .accept ↔ k ∈ t.sigOk ∧ claimsVerdict now t = .accept := by
+theorem sigVerdict_accept (now : Nat) (t : Token) (k : Key) :
+    sigVerdict now t k = .accept ↔ k ∈ t.sigValid ∧ claimsVerdict now t = .accept := by
   unfold sigVerdict
-  by_cases hs : t.sigOk.contains k = true
-  · have : k ∈ t.sigOk := by simpa using hs
+  by_cases hs : t.sigValid.contains k = true
+  · have : k ∈ t.sigValid := by simpa using hs
     simp [this]
-  · have : ¬ k ∈ t.sigOk := by simpa using hs
+  · have : ¬ k ∈ t.sigValid := by simpa using hs
     simp [this]
 
 theorem keyVerdict_accept (cfg : Cfg) (now : Nat) (t : Token) :
     keyVerdict cfg now t = .accept ↔
-      kindOk t.kind = true ∧ ∃ k, kidKey cfg t.kid = some k ∧ k ∈ t.sigOk ∧ claimsVerdict now t = .accept := by
+      kindOk t.kind = true ∧ ∃ k, kidKey cfg t.kid = some k ∧ k ∈ t.sigValid ∧ claimsVerdict now t = .accept := by
   unfold keyVerdict
   by_cases hk : kindOk t.kind = true
   · simp only [hk, if_true, true_and]
@@ -156,19 +151,125 @@ theorem verify_accept (cfg : Cfg) (now : Nat) (t : Token) :
   unfold verify
   cases algCheck t.alg <;> simp
 
-/-- **Acceptance, exact.** A decoded token is accepted iff it is an EdDSA token of kind "token" whose kid names a
-    configured key under which its signature verifies, issued by vkuth, for a non-empty user, with
+/-- **Acceptance, exact.** A decoded token is accepted iff it is an EdDSA token of kind "token" whose kid names an
+    entry of the key table and whose signature verifies under THE key bytes stored in that entry, issued by vkuth, for a non-empty user, with
     now − 5 s < exp, iat ≤ now + 5 s and (if present) nbf ≤ now. -/
 theorem accept_iff (cfg : Cfg) (now : Nat) (t : Token) : verify cfg now t = .accept ↔ Valid cfg now t := by
   rw [verify_accept, keyVerdict_accept, algCheck_none, kindOk_iff, claimsVerdict_accept]
   simp only [kidKey_some, iatOk_iff, nbfOk_iff, Valid]
   constructor
-  · rintro ⟨ha, hk, k, ⟨h1, h2⟩, hs, e, he, h3, h4, h5, h6, h7⟩
-    exact ⟨ha, hk, ⟨k, h1, h2, hs⟩, by simpa [issOk] using h6, by simpa [userOk] using h7,
+  · rintro ⟨ha, hk, key, ⟨kid, h1, h2⟩, hs, e, he, h3, h4, h5, h6, h7⟩
+    exact ⟨ha, hk, ⟨kid, key, h1, h2, hs⟩, by simpa [issOk] using h6, by simpa [userOk] using h7,
       ⟨e, he, (expOk_iff _ _).mp h3⟩, h4, h5⟩
-  · rintro ⟨ha, hk, ⟨k, h1, h2, hs⟩, h6, h7, ⟨e, he, h3⟩, h4, h5⟩
-    exact ⟨ha, hk, k, ⟨h1, h2⟩, hs, e, he, (expOk_iff _ _).mpr h3, h4, h5, by simpa [issOk] using h6,
+  · rintro ⟨ha, hk, ⟨kid, key, h1, h2, hs⟩, h6, h7, ⟨e, he, h3⟩, h4, h5⟩
+    exact ⟨ha, hk, key, ⟨kid, h1, h2⟩, hs, e, he, (expOk_iff _ _).mpr h3, h4, h5, by simpa [issOk] using h6,
       by simpa [userOk] using h7⟩
+
+/-! ## the key table: kid ↦ key, kid = fingerprint of the key -/
+
+theorem tableGet_filter (m : List (Str × Key)) (id id' : Str) (h : id ≠ id') :
+    tableGet (m.filter (fun e => e.1 != id)) id' = tableGet m id' := by
+  induction m with
+  | nil => rfl
+  | cons e r ih =>
+    by_cases he : e.1 = id
+    · have hf : List.filter (fun e => e.1 != id) (e :: r) = List.filter (fun e => e.1 != id) r := by
+        simp [he]
+      have h2 : ¬ e.1 = id' := fun h' => h (he.symm.trans h')
+      rw [hf, ih]
+      simp only [tableGet, h2, if_false]
+    · have hf : List.filter (fun e => e.1 != id) (e :: r) = e :: List.filter (fun e => e.1 != id) r := by
+        simp [he]
+      rw [hf]
+      simp only [tableGet, ih]
+
+theorem tableGet_set (m : List (Str × Key)) (id id' : Str) (k : Key) :
+    tableGet (tableSet m id k) id' = if id = id' then some k else tableGet m id' := by
+  unfold tableSet
+  by_cases h : id = id'
+  · simp [tableGet, h]
+  · simp [tableGet, h, tableGet_filter m id id' h]
+
+theorem foldl_tableSet_inv (fp : Key → Str) (P : Str → Key → Prop) : ∀ (ks : List Key) (m : List (Str × Key)),
+    (∀ id key, tableGet m id = some key → P id key) → (∀ k ∈ ks, P (fp k) k) →
+    ∀ id key, tableGet (ks.foldl (fun m k => tableSet m (fp k) k) m) id = some key → P id key := by
+  intro ks
+  induction ks with
+  | nil => intro m hm _ id key h; exact hm id key h
+  | cons k ks ih =>
+    intro m hm hk id key h
+    simp only [List.foldl_cons] at h
+    refine ih (tableSet m (fp k) k) ?_ (fun a ha => hk a (List.mem_cons_of_mem _ ha)) id key h
+    intro id' key' h'
+    rw [tableGet_set] at h'
+    split at h'
+    · next e => cases h'; rw [← e]; exact hk k (List.mem_cons_self ..)
+    · exact hm id' key' h'
+
+/-- **Every entry of the configured key table is one of the listed keys, stored under ITS OWN fingerprint** — an id
+    never leads to the bytes of a different listed key. -/
+theorem parseKeys_sound (fp : Key → Str) (ks : List Key) (id : Str) (key : Key)
+    (h : tableGet (parseKeys fp ks) id = some key) : key ∈ ks ∧ fp key = id :=
+  foldl_tableSet_inv fp (fun id key => key ∈ ks ∧ fp key = id) ks [] (by intro _ _ h; cases h)
+    (fun k hk => ⟨hk, rfl⟩) id key h
+
+theorem foldl_tableSet_keeps (fp : Key → Str) (id : Str) : ∀ (ks : List Key) (m : List (Str × Key)),
+    (tableGet m id).isSome = true → (tableGet (ks.foldl (fun m k => tableSet m (fp k) k) m) id).isSome = true := by
+  intro ks
+  induction ks with
+  | nil => intro m h; exact h
+  | cons k ks ih =>
+    intro m h
+    simp only [List.foldl_cons]
+    apply ih
+    rw [tableGet_set]
+    split
+    · rfl
+    · exact h
+
+theorem parseKeys_defined (fp : Key → Str) : ∀ (ks : List Key) (m : List (Str × Key)) (k : Key), k ∈ ks →
+    (tableGet (ks.foldl (fun m k => tableSet m (fp k) k) m) (fp k)).isSome = true := by
+  intro ks
+  induction ks with
+  | nil => intro m k h; cases h
+  | cons a ks ih =>
+    intro m k h
+    simp only [List.foldl_cons]
+    rcases List.mem_cons.mp h with h | h
+    · subst h
+      apply foldl_tableSet_keeps
+      simp [tableGet_set]
+    · exact ih _ k h
+
+/-- **Every listed key is reachable under its fingerprint and maps to its own bytes** (fingerprints of distinct
+    listed keys are distinct — sha256 collisions aside). -/
+theorem parseKeys_complete (fp : Key → Str) (ks : List Key) (k : Key) (hk : k ∈ ks)
+    (hinj : ∀ a ∈ ks, ∀ b ∈ ks, fp a = fp b → a = b) : tableGet (parseKeys fp ks) (fp k) = some k := by
+  have h : (tableGet (parseKeys fp ks) (fp k)).isSome = true := parseKeys_defined fp ks [] k hk
+  cases hg : tableGet (parseKeys fp ks) (fp k) with
+  | none => rw [hg] at h; cases h
+  | some k' =>
+    obtain ⟨h1, h2⟩ := parseKeys_sound fp ks _ _ hg
+    rw [hinj k' h1 k hk h2]
+
+/-- **"Signed by a configured key whose id it names."** With the key table built by ParseVkuthKeys from the listed
+    keys `ks`, an accepted token names (by fingerprint) one of the listed keys, and its signature verifies under that
+    very key — not merely under some configured key. -/
+theorem accept_signed_by_named_key (fp : Key → Str) (ks : List Key) (cfg : Cfg) (now : Nat) (t : Token)
+    (hc : cfg.keys = parseKeys fp ks) (h : verify cfg now t = .accept) :
+    ∃ key ∈ ks, t.kid = .str (fp key) ∧ key ∈ t.sigValid := by
+  obtain ⟨_, _, ⟨kid, key, h1, h2, h3⟩, _⟩ := (accept_iff cfg now t).mp h
+  rw [hc] at h2
+  obtain ⟨hm, hf⟩ := parseKeys_sound fp ks kid key h2
+  exact ⟨key, hm, by rw [hf]; exact h1, h3⟩
+
+/-- … and a signature that verifies only under OTHER keys (configured or not) than the one the kid names is rejected -/
+theorem wrong_key_rejected (fp : Key → Str) (ks : List Key) (cfg : Cfg) (now : Nat) (t : Token)
+    (hc : cfg.keys = parseKeys fp ks) (h : ∀ key ∈ ks, t.kid = .str (fp key) → key ∉ t.sigValid) :
+    verify cfg now t ≠ .accept := by
+  intro hv
+  obtain ⟨key, hm, hk, hs⟩ := accept_signed_by_named_key fp ks cfg now t hc hv
+  exact h key hm hk hs
 
 
 /-! ## bits -/
@@ -679,7 +780,8 @@ theorem accept_window (cfg : Cfg) (now : Nat) (t : Token) (h : verify cfg now t 
     user, no or passed expiry, issue time missing or in the future, not-before in the future). -/
 theorem tampered_rejected (cfg : Cfg) (now : Nat) (t : Token)
     (h : t.alg ≠ .str C30.algEdDSA ∨ t.kind ≠ .str C30.kindToken ∨
-         (∀ k, t.kid = .str k → k ∉ cfg.keys) ∨ (∀ k, t.kid = .str k → k ∉ t.sigOk) ∨
+         (∀ k, t.kid = .str k → tableGet cfg.keys k = none) ∨
+         (∀ k key, t.kid = .str k → tableGet cfg.keys k = some key → key ∉ t.sigValid) ∨
          t.iss ≠ C30.issuer ∨ t.user = [] ∨
          t.exp = none ∨ (∃ e, t.exp = some e ∧ e + 5000 ≤ now) ∨
          t.iat = none ∨ (∃ i, t.iat = some i ∧ now + 6000 ≤ i) ∨
@@ -687,12 +789,12 @@ theorem tampered_rejected (cfg : Cfg) (now : Nat) (t : Token)
     verify cfg now t ≠ .accept := by
   intro hv
   obtain ⟨e, i, he, hi, h1, h2, h3⟩ := accept_window cfg now t hv
-  obtain ⟨ha, hk, ⟨k, hk1, hk2, hk3⟩, hiss, hu, _⟩ := (accept_iff cfg now t).mp hv
+  obtain ⟨ha, hk, ⟨k, key, hk1, hk2, hk3⟩, hiss, hu, _⟩ := (accept_iff cfg now t).mp hv
   rcases h with h | h | h | h | h | h | h | ⟨e', he', h⟩ | h | ⟨i', hi', h⟩ | ⟨n, hn, h⟩
   · exact h ha
   · exact h hk
-  · exact h k hk1 hk2
-  · exact h k hk1 hk3
+  · rw [h k hk1] at hk2; cases hk2
+  · exact h k key hk1 hk2 hk3
   · exact h hiss
   · exact hu h
   · rw [h] at he; cases he
@@ -705,9 +807,13 @@ theorem tampered_rejected (cfg : Cfg) (now : Nat) (t : Token)
 
 def kA : Str := lit "key-a"
 def kB : Str := lit "key-b"
-def cfg0 : Cfg := { app := lit "statshouse", keys := [kA, kB], prot := [lit "foo_"], localMode := false, insecure := false }
+def pubA : Key := [1, 2, 3]
+def pubB : Key := [4, 5, 6]
+def pubC : Key := [7, 8, 9]
+def fp0 (k : Key) : Str := if k = pubA then kA else if k = pubB then kB else lit "key-c"
+def cfg0 : Cfg := { app := lit "statshouse", keys := parseKeys fp0 [pubA, pubB], prot := [lit "foo_"], localMode := false, insecure := false }
 def tok0 : Token :=
-  { alg := .str (lit "EdDSA"), kind := .str (lit "token"), kid := .str kA, sigOk := [kA], iss := lit "vkuth", user := lit "u",
+  { alg := .str (lit "EdDSA"), kind := .str (lit "token"), kid := .str kA, sigValid := [pubA], iss := lit "vkuth", user := lit "u",
     exp := some 1000000, iat := some 900000, nbf := none, service := false,
     bits := [lit "statshouse:view_default", lit "other:admin", lit "admin", lit "statshouse2:admin",
              lit "statshouse:edit_prefix.ns@foo_", lit "statshouse:view_metric.foo_bar", lit "statshouse:edit_namespace.team"] }
@@ -726,9 +832,16 @@ example : verify cfg0 950000 { tok0 with alg := .absent } = .err 2 := by decide
 example : verify cfg0 950000 { tok0 with kind := .str (lit "cookie") } = .err 2 := by decide
 example : verify cfg0 950000 { tok0 with kind := .absent } = .err 2 := by decide
 example : verify cfg0 950000 { tok0 with kid := .str kB } = .err 4 := by decide            -- signed by A, names B
-example : verify cfg0 950000 { tok0 with kid := .str (lit "key-c"), sigOk := [] } = .err 2 := by decide
+example : verify cfg0 950000 { tok0 with kid := .str kB, sigValid := [pubB] } = .accept := by decide   -- rotation: the other key
+example : verify cfg0 950000 { tok0 with sigValid := [pubB] } = .err 4 := by decide       -- names A, signed by configured B
+example : verify cfg0 950000 { tok0 with sigValid := [pubC] } = .err 4 := by decide       -- names A, signed by unconfigured C
+example : verify cfg0 950000 { tok0 with kid := .str (lit "key-c"), sigValid := [pubC] } = .err 2 := by decide
+example : tableGet cfg0.keys kA = some pubA ∧ tableGet cfg0.keys kB = some pubB ∧ tableGet cfg0.keys (lit "key-c") = none := by decide
+-- the aliasing defect shape (every id ↦ the LAST key) is a different table: it accepts B's signature under A's id
+example : verify { cfg0 with keys := [(kA, pubB), (kB, pubB)] } 950000 { tok0 with sigValid := [pubB] } = .accept ∧
+          verify { cfg0 with keys := [(kA, pubB), (kB, pubB)] } 950000 tok0 = .err 4 := by decide
 example : verify cfg0 950000 { tok0 with kid := .other } = .err 2 := by decide
-example : verify cfg0 950000 { tok0 with sigOk := [] } = .err 4 := by decide
+example : verify cfg0 950000 { tok0 with sigValid := [] } = .err 4 := by decide
 example : verify cfg0 950000 { tok0 with iss := lit "vkuth2" } = .err 512 := by decide
 example : verify cfg0 950000 { tok0 with user := [] } = .err 512 := by decide
 example : verify cfg0 950000 { tok0 with iat := none } = .err 32 := by decide
